@@ -176,6 +176,11 @@ def build(ld, prog, fns=None, stage_prefix='s', hook=None):
                 ds = ld.concatenate(ds, mid, last)
             else:
                 ds = ld.concatenate((ds, mid, last))
+        elif k in ('concat_aba', 'intersperse_aba'):
+            other = build(ld, refmodel.ABA_OTHER[op[1]], fns, stage_prefix=stage + 'o')
+            third = ds.map(fns.fn('z', stage + 'z'))
+            ds = ds.concatenate(other, third) if k == 'concat_aba' else \
+                ds.intersperse(other, third)
         elif k in refmodel.NARY:
             if m is None:
                 raise Unsupported('n-ary operand needs the model')
@@ -236,6 +241,18 @@ def build(ld, prog, fns=None, stage_prefix='s', hook=None):
             ds = ds.cache(B(False)) if pos else ds.cache(lazy=B(False))
         elif k == 'catch':
             ds = ds.catch()
+        elif k == 'single':
+            what, form = op[1], op[2]
+            fn = {'zip': ld.zip, 'key_zip': ld.key_zip, 'concatenate': ld.concatenate,
+                  'intersperse': ld.intersperse}[what]
+            if form == 'function':
+                ds = fn(ds)
+            elif form == 'function-list':
+                ds = fn([ds])
+            elif form == 'function-tuple':
+                ds = fn((ds,))
+            else:
+                ds = getattr(ds, what)()
         elif k == 'mapguard':
             ds = ds.map(fns.guard(op[1], stage))
         elif k == 'catchfilter':
@@ -260,6 +277,9 @@ def build(ld, prog, fns=None, stage_prefix='s', hook=None):
                 elif k == 'concat3':
                     m = refmodel.apply(m, op, tuple(
                         refmodel.run(x) for x in refmodel.concat3_operands(op[1], op[2])))
+                elif k in ('concat_aba', 'intersperse_aba'):
+                    m = refmodel.apply(m, op, (refmodel.run(refmodel.ABA_OTHER[op[1]]),
+                                               refmodel.apply(m, ('map', 'z'))))
                 elif k in refmodel.NARY:
                     m = refmodel.apply(m, op, refmodel.nary_operands(m, op))
                 else:
@@ -325,6 +345,11 @@ def alphabet(n, kind, small=False):
             ('split', 1, 0), ('cache',), ('ecache',), ('catch',), ('catchfilter', 2),
             ('catchfilter', 3), ('copy',), ('freeze',),
             ('mapguard', 0), ('mapguard', 1), ('mapguard', max(n - 1, 0)),
+            ('concat_aba', kind), ('intersperse_aba', kind),
+            ('single', 'zip', 'function'), ('single', 'zip', 'function-list'),
+            ('single', 'zip', 'method'), ('single', 'concatenate', 'function'),
+            ('single', 'concatenate', 'function-tuple'), ('single', 'concatenate', 'method'),
+            ('single', 'intersperse', 'function'), ('single', 'key_zip', 'function'),
             ('prefetch1', 1), ('prefetch1', 2), ('prefetcht', 2, 2), ('prefetcht', 2, 3),
             ('apply_eager', 'h'), ('apply_lazy', 'h')]
     ops += [('concat3', kind, 'method'), ('concat3', kind, 'method-list'),
